@@ -46,6 +46,12 @@ def gen(tier, rng, scale):
         c = {"items": recs, "sw": True}
         if srng.chance(1, 3):
             c["shuffle"] = srng.next()
+        if srng.chance(1, 3):
+            # two events recorded together, both with samples (`perf record -e cycles -e instructions`, the two PMUs of a hybrid CPU, a software event
+            # next to the main one): the places of the switch records are taken by samples of the SECOND event - markers, never samples of a thread
+            main = srng.choice(["cpu-clock", "cycles", "cycles"])
+            c["layout"] = [True, True, True, True, "std", srng.choice([0, 1]), False, main, srng.choice(["instructions", "cycles", "page-faults"])]
+            del c["sw"]              # no context-switch records in such a file, hence no off-CPU samples: the profile holds the main event's samples and nothing else
         cases.append(c)
     # sample records of unusual but legal shape: no PERF_SAMPLE_IP and / or no PERF_SAMPLE_CALLCHAIN in the event's sample_type, call chains
     # that are empty or hold context markers only - a sample without a single frame is still a sample of its thread
